@@ -7,6 +7,7 @@ package c18
 import (
 	"errors"
 	"fmt"
+	"io"
 	"os"
 	"path/filepath"
 	"sort"
@@ -88,6 +89,30 @@ func (e event) String() string {
 type sentinel struct{ id int }
 
 func (s *sentinel) Error() string { return fmt.Sprintf("verif-sentinel-%d", s.id) }
+
+// multiErr carries the sentinel next to another error in one chain (errors.Is finds both).
+type multiErr struct{ errs []error }
+
+func (m *multiErr) Error() string   { return fmt.Sprintf("%v (and %d more)", m.errs[0], len(m.errs)-1) }
+func (m *multiErr) Unwrap() []error { return m.errs }
+
+// shaped returns the error a failing callback hands back: the sentinel itself, or the sentinel
+// wrapped / joined the way real callbacks do (context added with %w, a nested parse failure in
+// the same chain, io.EOF in the chain). Whatever the shape, the caller must be able to get the
+// sentinel back with errors.Is.
+func shaped(sent *sentinel, shape int) error {
+	switch shape % 5 {
+	case 1:
+		return fmt.Errorf("while handling the callback: %w", sent)
+	case 2:
+		return &multiErr{[]error{sent, &algoparser.ParseError{Description: "nested parse failed", Cause: errors.New("inner cause")}}}
+	case 3:
+		return fmt.Errorf("%w: %w", sent, &algoparser.ParseError{Description: "inner", Cause: io.EOF})
+	case 4:
+		return errors.Join(io.EOF, sent)
+	}
+	return sent
+}
 
 // expected lexeme of a token as documented: quotes / slashes stripped, fixed text otherwise.
 func expectedLexeme(t gen.Tok) string {
@@ -582,7 +607,7 @@ func (e Engine) Run(t *simrt.Tape, c simrt.Case, x *simrt.Ctx) *simrt.Result {
 					got = append(got, event{isTok: true, term: tk.Terminal, lex: tk.Lexeme, pos: tk.Pos})
 					if len(got)-1 == k {
 						failed = true
-						return sent
+						return shaped(sent, sentID)
 					}
 					return nil
 				},
@@ -593,7 +618,7 @@ func (e Engine) Run(t *simrt.Tape, c simrt.Case, x *simrt.Ctx) *simrt.Result {
 					got = append(got, event{prod: i})
 					if len(got)-1 == k {
 						failed = true
-						return sent
+						return shaped(sent, sentID)
 					}
 					return nil
 				},
@@ -625,8 +650,9 @@ func (e Engine) Run(t *simrt.Tape, c simrt.Case, x *simrt.Ctx) *simrt.Result {
 			return res.Fail("fault:error_swallowed", "%s returned an error at step %d (%s) but Parse returned nil", kind, k, hist[k])
 		}
 		if !errors.Is(err, sent) && !strings.Contains(err.Error(), sent.Error()) {
-			return res.Fail("fault:error_replaced", "%s returned %q at step %d but Parse returned %q", kind, sent, k, err)
+			return res.Fail("fault:error_replaced", "%s returned %q (shape %d) at step %d but Parse returned %q, from which the callback's error cannot be recovered", kind, shaped(sent, sentID), sentID%5, k, err)
 		}
+		res.Key("errshape", kind, sentID%5)
 	}
 	// evaluate callback failing at each of its calls
 	nEval := len(calls)
@@ -643,7 +669,7 @@ func (e Engine) Run(t *simrt.Tape, c simrt.Case, x *simrt.Ctx) *simrt.Result {
 	for _, k := range esteps {
 		sentID++
 		sent := &sentinel{id: sentID*1000 + k}
-		gotCalls, _, root, err := runEval(k, sent)
+		gotCalls, _, root, err := runEval(k, shaped(sent, sentID))
 		res.Evals++
 		res.Count("fault_eval_error", 1)
 		res.Key("eval", calls[k].prod, lenClass(len(hist)))
